@@ -2,6 +2,11 @@ open BinNums
 open Datatypes
 open Drv
 (* a chunk token may carry a mode letter (S = io.WriteString, R = io.Copy): the same operation for the model *)
+(* "ok" | <n> | s<n> (a short write reported as io.ErrShortWrite: the same thing for the model) *)
+let acc_of_tok a =
+  if a = "ok" then None
+  else if String.length a > 0 && a.[0] = 's' then Some (z_of_string (String.sub a 1 (String.length a - 1)))
+  else Some (z_of_string a)
 let chunk_of_tok c =
   if String.length c > 0 && (c.[0] = 'S' || c.[0] = 'R') then bytes_of_hex (String.sub c 1 (String.length c - 1))
   else bytes_of_hex c
@@ -11,7 +16,7 @@ let do_indent toks =
   | p :: rest ->
     let prefix = bytes_of_hex p in
     let rec calls = function
-      | c :: a :: r -> (chunk_of_tok c, (if a = "ok" then None else Some (z_of_string a))) :: calls r
+      | c :: a :: r -> (chunk_of_tok c, (acc_of_tok a)) :: calls r
       | _ -> [] in
     let (rs, out) = Indent.run prefix (Indent.coq_NewWriter prefix) (calls rest) in
     let rs = Str_.concat "," (L.map (fun (n, e) -> string_of_z n ^ ":" ^ (if e then "E" else "ok")) rs) in
@@ -29,7 +34,7 @@ let do_indent2 toks =
   match toks with
   | p1 :: p2 :: rest ->
     let p1 = bytes_of_hex p1 and p2 = bytes_of_hex p2 in
-    let acc a = if a = "ok" then None else Some (z_of_string a) in
+    let acc a = acc_of_tok a in
     let rec ops = function
       | "L" :: c :: a :: r -> Indent.OLower (chunk_of_tok c, acc a) :: ops r
       | "U" :: c :: a :: r -> Indent.OUpper (chunk_of_tok c, acc a) :: ops r
